@@ -46,3 +46,23 @@ Example f11c_history_fixed :
   | None => False
   end.
 Proof. vm_compute. repeat split; reflexivity. Qed.
+
+(* seeded C11-r2-1: Join hands the promise joined onto ONE reference to the client table instead of all of p's
+   (parent.clientsRefs++): chain 2 -> 1 -> 0 joined child first, client requested on promise 2; after
+   ReleaseClients on 2 and on 1 (the leaf's owner has not released) the call through the client fails *)
+Definition refs_history : list jop :=
+  [JClient 2 [0] 0; JJoin 2 1; JJoin 1 0; JFulfill 0 [([0], 1)]; JRelease 2; JRelease 1; JCall 0 false].
+
+Example join_refs_refuted :
+  match jquiesce jrefs1 1000 (jinit 3 refs_history) 7 with
+  | Some c => In (JEDirect 6 DFail) (jevents c) /\ p_relflag (getp c 0) = false
+  | None => False
+  end.
+Proof. vm_compute. split; [left; reflexivity|reflexivity]. Qed.
+
+Example refs_history_fixed :
+  match jquiesce jfixed 1000 (jinit 3 refs_history) 7 with
+  | Some c => In (JEDirect 6 (DCap 1)) (jevents c) /\ p_relflag (getp c 0) = false
+  | None => False
+  end.
+Proof. vm_compute. split; [left; reflexivity|reflexivity]. Qed.
